@@ -513,3 +513,58 @@ func VH_C02_FetchV2Truncated(version, late, shape1 int) {
 	}
 	vhReach("c02-fetch-v2-truncated")
 }
+
+// H6: the Reader's position. After each delivered message Offset() is that message's offset + 1, SetOffset to an
+// offset already read rewinds (the records are delivered again from there, by a new connection), SetOffset to the
+// current position is a no-op that does not lose or repeat a record.
+func VH_C02_ReaderPosition(rewind int) {
+	vhConcreteClock(true)
+	const n = 2
+	var set []byte
+	vals := make([][]byte, n)
+	for i := 0; i < n; i++ {
+		vals[i] = vhBytes("value", 2)
+		set = append(set, vhEncMessage(int64(i), 1, 0, 1600000000000, nil, vals[i])...)
+	}
+	meta := append(vhApiVersionsFrame(1, []vhApiRange{{int16(metadata), 0, 1}}), vhMetadataResponse(2, 1, "t", 0, 0, 1)...)
+	var s []byte
+	s = append(s, vhListOffsetsFrame(1, "t", 0, 0, -1, 0)...)
+	s = append(s, vhListOffsetsFrame(2, "t", 0, 0, -1, int64(n))...)
+	s = append(s, vhListOffsetsFrame(3, "t", 0, 0, -1, 0)...)
+	s = append(s, vhListOffsetsFrame(4, "t", 0, 0, -1, int64(n))...)
+	s = append(s, vhApiVersionsFrame(5, []vhApiRange{{int16(fetch), 0, 2}})...)
+	s = append(s, vhFetchResponse(6, 2, 0, "t", 0, 0, int64(n), set)...)
+	mk := func() *vhFakeConn { return &vhFakeConn{data: s, gate: make(chan struct{}), gateAfter: len(s)} }
+	conns := []*vhFakeConn{{data: meta}, mk(), {data: meta}, mk()}
+	dials := 0
+	d := &Dialer{DialFunc: func(c context.Context, network, address string) (net.Conn, error) {
+		if dials >= len(conns) {
+			return nil, io.ErrClosedPipe
+		}
+		fc := conns[dials]
+		dials++
+		return fc, nil
+	}}
+	r := NewReader(ReaderConfig{Brokers: []string{"b:9092"}, Topic: "t", Partition: 0, Dialer: d, MinBytes: 1, MaxBytes: 100000, MaxWait: time.Second,
+		ReadLagInterval: -1})
+	ctx := context.Background()
+	m, err := r.ReadMessage(ctx)
+	vhAssert(err == nil && m.Offset == 0 && vhBytesEq(m.Value, vals[0]), "first-record-delivered")
+	vhAssert(r.Offset() == 1, "position-follows-the-delivered-record")
+	if rewind == 1 {
+		vhAssert(r.SetOffset(0) == nil, "set-offset-ok")
+		vhAssert(r.Offset() == 0, "set-offset-moves-the-position")
+		m, err = r.ReadMessage(ctx)
+		vhAssert(err == nil && m.Offset == 0 && vhBytesEq(m.Value, vals[0]), "rewound-reader-delivers-from-the-requested-offset")
+		vhAssert(r.Offset() == 1, "position-follows-the-delivered-record")
+	} else {
+		vhAssert(r.SetOffset(1) == nil, "set-offset-to-the-current-position-ok")
+	}
+	m, err = r.ReadMessage(ctx)
+	vhAssert(err == nil && m.Offset == 1 && vhBytesEq(m.Value, vals[1]), "next-record-delivered-once")
+	vhAssert(r.Offset() == 2, "position-follows-the-delivered-record")
+	closedCh := make(chan struct{})
+	go func() { r.Close(); close(closedCh) }()
+	<-closedCh
+	vhReach("c02-reader-position")
+}
